@@ -240,9 +240,9 @@ def check_c02(pid, tier, seed, replay=None):
     scns += fam_lifecycle(rng, 300 if q else 60000, links, na) + fam_hdrbits(rng, 400 if q else 90000, [0, 1, 2, 4])
     # synthetic set-ups written by TLC from Setup.tla: well-formed shapes and one-field boundary mutations, decoded with silent and pseudo-random packets
     import checks.syn as SY
-    cases, gstats, gproblems = SY.gen_cases(('shapes', 'mutations'))
+    cases, gstats, gproblems = SY.gen_cases(('shapes', 'mutations', 'residue'))
     for rep in range(2 if q else 30): scns += [s for s in SY.build_scenarios(random.Random(seed * 100 + rep), cases, 8 if q else 24)]
-    for j, s in enumerate(scns): s.name = s.name if not s.name.startswith(('shapes-', 'mutations-')) else f'{s.name}-r{j}'
+    for j, s in enumerate(scns): s.name = s.name if not s.name.startswith(('shapes-', 'mutations-', 'residue-')) else f'{s.name}-r{j}'
     problems = problems + gproblems
     for s_ in scns: s_.prelude = prelude(links)
     res = run_batch(pid, scns, bindir, 'pdh', *TRACE, prelude=prelude(links))
